@@ -137,6 +137,7 @@ public:
   static buffergroup *get_instance();
   static void del_instance();
   void set_buffergroup(u32_t size, FILE *fin, FILE *fout, bool ispadding);
+  void wait_buffer_ready(const u8_t id) { ctrl[id].wait_ready(); };
   u8_t *require_buffer_entry(const u8_t id);
   void run_buffer(const std::function<void(std::string, size_t)> &printload);
 };
